@@ -144,7 +144,11 @@ func (r *ring) removeHost(hostID string) bool {
 				break
 			}
 		}
-		delete(r.hostIPToUUID, h.nodeToNodeAddress().String())
+		// the address may meanwhile belong to another host (a replaced node keeps
+		// its address but gets a new host id): only drop our own mapping
+		if ip := h.nodeToNodeAddress().String(); r.hostIPToUUID[ip] == hostID {
+			delete(r.hostIPToUUID, ip)
+		}
 	}
 	delete(r.hosts, hostID)
 	r.mu.Unlock()
